@@ -58,7 +58,7 @@ func (*typeCodec) Encode(o interface{}) (uint8, []byte, error) {
 	case int64:
 		return TypeInt, intconv.Int64ToBytes(obj), nil
 	case uint:
-		return TypeInt, intconv.Int64ToBytes(int64(obj)), nil
+		return TypeInt, intconv.Uint64ToBytes(uint64(obj)), nil
 	case uint16:
 		return TypeInt, intconv.Int64ToBytes(int64(obj)), nil
 	case uint32:
